@@ -568,7 +568,8 @@ impl<C: ContentAddrStore> SealedState<C> {
             .keys()
             .map(|k| self.0.stakes.votes(my_epoch, *k))
             .sum();
-        if total_votes > present_votes / 2 * 3 {
+        // confirmed iff the signers hold more than two thirds of the active voting power
+        if num::BigUint::from(present_votes) * 3u32 > num::BigUint::from(total_votes) * 2u32 {
             Some(ConfirmedState {
                 state: self.clone(),
                 cproof,
